@@ -1414,6 +1414,10 @@ def frag_bool(rng, d, div="all", opnds="all"):
             if rng.random() < 0.2:
                 return [rng.choice(["eq", "ne", "is", "isnot"]), frag_str(rng, 1, div, opnds), ["null"]]
             return [rng.choice(CMP), frag_str(rng, rng.randint(0, 2), div, opnds), frag_str(rng, rng.randint(0, 2), div, opnds)]
+        if x < 0.6:
+            # the LIKE family over string-valued operands, with or without escape=
+            return [rng.choice(LIKES), frag_str(rng, rng.randint(0, 2), div, opnds), frag_str(rng, rng.randint(0, 2), div, opnds),
+                    rng.choice([None, None, "/", "!", "a"])]
         return [rng.choice(CMP), frag_num(rng, rng.randint(0, 2), div), frag_num(rng, rng.randint(0, 2), div)]
     k = rng.choice(["and", "or", "not", "and", "or"])
     if k == "not":
